@@ -1,5 +1,5 @@
 //@PROBE file=src/utils/nms.rs test=verif_probe_nms_c14 clauses=nms
-//@BOUND lists of 0..=4 boxes exhaustively over a 16-box alphabet (coverage fractions computed by an independent f64 clipper, not by the library) (clustered, nested, duplicated, rotated - three of them handed over after gen_vertices() and a later edit of their public fields -, two invalid) and 1500 pseudo-random lists of 5..=14 boxes; with/without scores (scores from a 5-value grid, ties included); nms thresholds {0.1, 0.3, 0.5, 0.8}; score thresholds {None, below, inside, above the score range}
+//@BOUND lists of 0..=4 boxes exhaustively over a 16-box alphabet (coverage fractions computed by an independent f64 clipper, not by the library) (clustered, nested, duplicated, rotated - three of them handed over after gen_vertices() and a later edit of their public fields -, two invalid) and 1500 pseudo-random lists of 5..=14 boxes; with/without scores (scores from a 5-value grid, ties included); nms thresholds {0.1, 0.3, 0.5, 0.8}; score thresholds {None, below, inside, above the score range, 7.0 - between the box heights, which rank the boxes without a score}
 #[cfg(test)]
 mod verif_probe_nms_c14 {
     // Bounded stand-in for the contract of nms() (for-loops with `continue`, enumerate() and HashSet are outside
@@ -126,14 +126,15 @@ mod verif_probe_nms_c14 {
         let mut failures: Vec<String> = vec![];
         let mut cases = 0u64;
         let mut nontrivial = 0u64; // something dropped by suppression and something kept
-        let sthrs: [Option<f32>; 4] = [None, Some(0.1), Some(0.5), Some(0.95)];
+        // 7.0 lies above every score and between the heights of the alphabet (4..30): a box without a score passes ANY score threshold
+        let sthrs: [Option<f32>; 5] = [None, Some(0.1), Some(0.5), Some(0.95), Some(7.0)];
         let mut run = |sel: &[usize], scored: bool, salt: usize, failures: &mut Vec<String>| {
             let dets: Vec<(Universal2DBox, Option<f32>)> = sel.iter().enumerate()
                 .map(|(p, &a)| (gv[a].clone(), if scored { Some(scores[(a + p * 3 + salt) % 5]) } else { None })).collect();
             let geo: Vec<Universal2DBox> = sel.iter().map(|&a| al[a].clone()).collect();
             for thr in [0.1f32, 0.3, 0.5, 0.8] {
                 for st in sthrs.iter() {
-                    if !scored && st.is_some() && *st != Some(0.5) { continue; }
+                    if !scored && st.is_some() && *st != Some(0.5) && *st != Some(7.0) { continue; }
                     cases += 1;
                     match contract(&dets, &geo, thr, *st) {
                         Ok(k) => { if k > 0 && k < sel.len() { nontrivial += 1; } }
